@@ -207,6 +207,47 @@ def hygiene_case(cid, rng):
     return Case(cid, "\n".join(L + D) + "\n", meta=meta)
 
 
+def generic_case(cid, rng):
+    """Mockable fns with a generic (non-deps) type parameter: the mock API is instantiated with `with_types`."""
+    pos = rng.choice(["first", "last"])
+    ret_t = rng.random() < 0.5
+    in_mod = rng.random() < 0.4
+    is_async = rng.random() < 0.3
+    fid = "%s::subj" % cid
+    ps = ["t: T", "a: i32", "b: i32"] if pos == "first" else ["a: i32", "b: i32", "t: T"]
+    names = [p.split(":")[0] for p in ps]
+    body = '::vrt::enter("%s", ::vrt::tn(deps), ::vrt::addr(deps), &[%s]); %s%s' % (
+        fid, ", ".join("&%s as &dyn ::core::fmt::Debug" % n for n in names), "::vrt::yield_once().await; " if is_async else "",
+        "t" if ret_t else '::std::format!("{:?}|{}|{}", t, a, b)')
+    sig = "pub %sfn subj<D, T: ::core::fmt::Debug + ::core::marker::Send + 'static>(deps: &D, %s) -> %s { %s }" % (
+        "async " if is_async else "", ", ".join(ps), "T" if ret_t else "::std::string::String", body)
+    L = [APP_DEF]
+    macro = rng.choice(["entrait", "entrait_export"])
+    if in_mod:
+        L += ["#[::entrait::%s(pub Subj, mock_api = SubjMock)] /*@inv*/" % macro, "pub mod subject_mod { use super::*;", "    " + sig, "}"]
+        api = "subject_mod::SubjMock::subj"
+    else:
+        L += ["#[::entrait::%s(pub Subj, mock_api = SubjMock)] /*@inv*/" % macro, sig]
+        api = "SubjMock"
+    vals = ["7i64", "101i32", "102i32"] if pos == "first" else ["101i32", "102i32", "7i64"]
+    w = (lambda c: "::vrt::block_on(%s)" % c) if is_async else (lambda c: c)
+    answer = "99i64" if ret_t else '::std::string::String::from("ANSWER_0")'
+    want = "99" if ret_t else '"ANSWER_0"'
+    D = ["pub fn run() {", '    ::vrt::phase("mock");',
+         "    { let u = ::unimock::Unimock::new(::unimock::MockFn::each_call(%s.with_types::<i64>(), ::unimock::matching!(%s)).returns(%s));" % (api, ", ".join(vals), answer),
+         '      let r = %s; ::vrt::kv("r0", ::std::format!("{:?}", r)); }' % w("u.subj(%s)" % ", ".join(vals)),
+         '    ::vrt::phase("partial:0");',
+         '    { let u = ::unimock::Unimock::new_partial(()); ::vrt::kv("u_addr", ::vrt::addr(&u)); ::vrt::kv("u_tn", ::vrt::tn(&u));',
+         "      let r = %s; ::vrt::result(&r); }" % w("u.subj(%s)" % ", ".join(vals)),
+         '    ::vrt::phase("impl:0");',
+         '    { let app = ::entrait::Impl::new(App { tag: 1, name: "n" }); let r = %s; ::vrt::result(&r); }' % w("app.subj(%s)" % ", ".join(vals)), "}"]
+    dbg = [v.rstrip("i3264") if False else v[:-3] for v in vals]
+    meta = {"family": "fnmod", "mode": "generic", "nontrivial": True, "opts": [], "macro": macro,
+            "calls": [{"i": 0, "fn": fid, "args": dbg, "want_mock": want, "deps_usable": True, "nested": [], "async": is_async, "no_deps": False}],
+            "methods": [{"name": "subj", "kind": "generic", "arity": 3}], "sigs": [sig[:120]]}
+    return Case(cid, "\n".join(L + D) + "\n", meta=meta)
+
+
 def unmock_with_entries(rec):
     """Entries of `unmock_with = [..]` in the unimock attribute on the emitted trait, or None."""
     def find(ts):
@@ -328,6 +369,8 @@ def run(tier, seed):
         r = rng.random()
         if r < 0.1:
             cases.append(hygiene_case("c11h_%04d" % i, rng))
+        elif r < 0.2:
+            cases.append(generic_case("c11g_%04d" % i, rng))
         elif r < 0.85:
             cases.append(build_fnmod("c11_%04d" % i, rng))
         else:
